@@ -14,7 +14,7 @@ Record tagspec : Set := mkTag {
   t_str : bool }.        (* ,string *)
 
 Inductive ty : Set :=
-  | TBool | TInt | TFloat | TStr
+  | TBool | TInt (is64 : bool) | TFloat | TStr      (* is64: a signed Go integer kind *)
   | TPtr (t : ty) | TSlice (t : ty) | TMap (t : ty) | TAny
   | TStruct (name : bytes) (fs : list field)
 with field : Set :=
@@ -98,13 +98,31 @@ Section Enc.
     end.
 
   (* keep a member? [x] is the Go value, [e] its encoding *)
-  Definition keep (tg : tagspec) (x : gv) (e : jv) : bool :=
+  Definition int64_behind (t : ty) (x : gv) : bool :=
+    (* behind a pointer or an interface decompose widens the signed integer kinds to int64 (the only
+       kind its emptiness test knows); unsigned ones stay as they are *)
+    match x, t with
+    | GPtr _, TPtr (TInt true) => true
+    | GAny (TInt true) _, _ => true
+    | _, _ => false
+    end.
+
+  Definition keep (tg : tagspec) (t : ty) (x : gv) (e : jv) : bool :=
     negb (o_omitnil o && is_null e) &&
     negb ((o_omitempty o || (o_tags o && t_omit tg)) &&
           (gv_empty x
            || (o_decomp o && o_omitempty o && (is_struct_val x || match x with GMap _ => true | _ => false end)
                && match e with JObj [] => true | _ => false end)
-           || (o_derefempty o && match x with GPtr _ | GAny _ _ => negb (is_struct_val x) && is_empty e | _ => false end))).
+           || (o_derefempty o && match x with
+                                  | GPtr _ | GAny _ _ =>
+                                      negb (is_struct_val x) &&
+                                      match e with
+                                      | JInt z => (z =? 0) && int64_behind t x
+                                      | JFloat _ => false
+                                      | _ => is_empty e
+                                      end
+                                  | _ => false
+                                  end))).
 
   Fixpoint enc (t : ty) (v : gv) {struct v} : jv :=
     match v with
@@ -120,7 +138,7 @@ Section Enc.
                          | [] => []
                          | (k, x) :: m' =>
                              let e := enc (match t with TMap t' => t' | _ => TAny end) x in
-                             if keep (mkTag false [] false false false) x e then (k, e) :: go m' else go m'
+                             if keep (mkTag false [] false false false) (match t with TMap t' => t' | _ => TAny end) x e then (k, e) :: go m' else go m'
                          end) m)
     | GAny t' x => enc t' x
     | GStruct vals =>
@@ -143,7 +161,7 @@ Section Enc.
                            end
                          else
                            let e := enc ft x in
-                           if keep tg x e
+                           if keep tg ft x e
                            then (field_key o fname tg, if o_tags o && t_str tg then as_string e else e) :: rest
                            else rest
                      | _, _ => []
@@ -178,7 +196,7 @@ Definition member_of_field (o : opts) (f : field) (x : gv) : list (bytes * jv) :
         end
       else
         let e := enc o ft x in
-        if keep o tg x e
+        if keep o tg ft x e
         then [(field_key o fname tg, if o_tags o && t_str tg then as_string e else e)]
         else []
   end.
